@@ -1,1 +1,62 @@
-From Verif Require Import Base Tie.
+(* C16 -- built-in helper functions and aliases keep their documented pointwise meaning.
+   Aliases are equal model functions AND bind to the same object in the TRANSFORMS registry that
+   harness/translate.py regenerates from /repo/formulae/transforms.py (Generated.v, Tie.v). *)
+From Verif Require Import Base Frame Eval Design Contrasts HelpersProofs.
+From Verif Require Generated Tie.
+Local Close Scope Qc_scope.
+Local Close Scope Q_scope.
+
+Theorem C16_alias_B : forall cx, call_function cx "B" = call_function cx "binary".
+Proof. exact alias_B_binary. Qed.
+Theorem C16_alias_p_prop : forall cx, call_function cx "p" = call_function cx "prop".
+Proof. exact alias_p_prop. Qed.
+Theorem C16_alias_prop_proportion : forall cx, call_function cx "prop" = call_function cx "proportion".
+Proof. exact alias_prop_proportion. Qed.
+Theorem C16_alias_standardize : forall cx, call_stateful cx "standardize" = call_stateful cx "scale".
+Proof. exact alias_standardize_scale. Qed.
+
+Theorem C16_T_is_C_Treatment :
+  forall cx x r, not_box x ->
+    call_function cx "T" [x; r] [] =
+    (do e <- call_function cx "Treatment" [r] []; call_function cx "C" [x; e] []).
+Proof. exact T_is_C_Treatment. Qed.
+Theorem C16_S_is_C_Sum :
+  forall cx x o, not_box x ->
+    call_function cx "S" [x; o] [] =
+    (do e <- call_function cx "Sum" [o] []; call_function cx "C" [x; e] []).
+Proof. exact S_is_C_Sum. Qed.
+
+(* the registry of the current source binds the aliases to the same objects *)
+Theorem C16_registry_alias_classes :
+  map (fun kv => fst kv) (filter (fun kv => String.eqb (snd kv) "binary") Generated.gen_transform_registry)
+    = ["B"%string; "binary"%string] /\
+  map (fun kv => fst kv) (filter (fun kv => String.eqb (snd kv) "proportion") Generated.gen_transform_registry)
+    = ["p"%string; "prop"%string; "proportion"%string] /\
+  map (fun kv => fst kv) (filter (fun kv => String.eqb (snd kv) "Scale") Generated.gen_transform_registry)
+    = ["scale"%string; "standardize"%string].
+Proof. exact reg_alias_classes. Qed.
+
+(* binary(x, s): 1 exactly where x = s; refuses an s that never occurs; default = smallest value *)
+Theorem C16_binary_spec :
+  forall cx o xs s,
+    call_function cx "binary" [PStrs o xs; PStr s] [] =
+    (if existsb (str_hit s) xs then Ok (PSeries true (map (fun x => bit (str_hit s x)) xs)) else Err EValue).
+Proof. exact binary_spec_str. Qed.
+Theorem C16_binary_default_smallest :
+  forall xs s rest, sorted_unique_str (present xs) = s :: rest ->
+    In (Some s) xs /\ (forall y, In (Some y) xs -> str_leb s y = true).
+Proof. exact binary_default_smallest. Qed.
+
+Theorem C16_I_identity : forall cx v, call_function cx "I" [v] [] = Ok v.
+Proof. exact I_identity. Qed.
+
+Theorem C16_offset_constant_broadcast :
+  forall t spans nrows q xs,
+    tc_kind t = KOffset -> tc_response t = false -> tc_value t = POffset (Some q) xs ->
+    exists dc, set_data_comp t spans nrows = Ok dc /\ dc_rows dc = repeat [Some q] nrows /\
+               List.length (dc_rows dc) = nrows /\ dc_labels dc = Some [tc_name t].
+Proof. exact offset_spec_constant. Qed.
+
+Print Assumptions C16_alias_B.
+Print Assumptions C16_T_is_C_Treatment.
+Print Assumptions C16_binary_spec.
